@@ -10,6 +10,18 @@
 #include "verif.h"
 #include "version_set.c"
 
+/* Allocator model (util/internal.c is not linked): ldb_realloc hands out
+ * 64-byte chunks and grows in place, so that vector / buffer growth never
+ * needs a symbolic-length memcpy.  A request above 64 bytes fails. */
+#define CHUNK 64
+void *ldb_malloc(size_t size) { void *p = malloc(size); __CPROVER_assume(p != NULL); return p; }
+void *ldb_realloc(void *ptr, size_t size) {
+  __CPROVER_assert(size <= CHUNK, "allocator model: request fits the 64-byte chunk");
+  if (ptr == NULL) { void *p = malloc(CHUNK); __CPROVER_assume(p != NULL); return p; }
+  return ptr;
+}
+void ldb_free(void *ptr) { if (ptr != NULL) free(ptr); }
+
 /* ======================================================================
  * ver.numbers - the file-number allocator (C13, C05, C19)
  * ====================================================================== */
@@ -107,13 +119,39 @@ void h_numbers_protocol(void) {
 #include "dbformat.c"
 
 #define MAXF 6
-static uint8_t g_ks[LDB_NUM_LEVELS][MAXF][9], g_kl[LDB_NUM_LEVELS][MAXF][9]; /* key bytes */
+/* every file and every key is an object of its own (cheap for CBMC: constant offsets only) */
+static ldb_filemeta_t fm_0_0, fm_0_1, fm_0_2, fm_0_3, fm_0_4, fm_0_5, fm_1_0, fm_1_1, fm_1_2, fm_1_3, fm_1_4, fm_1_5, fm_2_0, fm_2_1, fm_2_2, fm_2_3, fm_2_4, fm_2_5, fm_3_0, fm_3_1, fm_3_2, fm_3_3, fm_3_4, fm_3_5, fm_4_0, fm_4_1, fm_4_2, fm_4_3, fm_4_4, fm_4_5, fm_5_0, fm_5_1, fm_5_2, fm_5_3, fm_5_4, fm_5_5, fm_6_0, fm_6_1, fm_6_2, fm_6_3, fm_6_4, fm_6_5;
+static uint8_t ks_0_0[9], kl_0_0[9], ks_0_1[9], kl_0_1[9], ks_0_2[9], kl_0_2[9], ks_0_3[9], kl_0_3[9], ks_0_4[9], kl_0_4[9], ks_0_5[9], kl_0_5[9], ks_1_0[9], kl_1_0[9], ks_1_1[9], kl_1_1[9], ks_1_2[9], kl_1_2[9], ks_1_3[9], kl_1_3[9], ks_1_4[9], kl_1_4[9], ks_1_5[9], kl_1_5[9], ks_2_0[9], kl_2_0[9], ks_2_1[9], kl_2_1[9], ks_2_2[9], kl_2_2[9], ks_2_3[9], kl_2_3[9], ks_2_4[9], kl_2_4[9], ks_2_5[9], kl_2_5[9], ks_3_0[9], kl_3_0[9], ks_3_1[9], kl_3_1[9], ks_3_2[9], kl_3_2[9], ks_3_3[9], kl_3_3[9], ks_3_4[9], kl_3_4[9], ks_3_5[9], kl_3_5[9], ks_4_0[9], kl_4_0[9], ks_4_1[9], kl_4_1[9], ks_4_2[9], kl_4_2[9], ks_4_3[9], kl_4_3[9], ks_4_4[9], kl_4_4[9], ks_4_5[9], kl_4_5[9], ks_5_0[9], kl_5_0[9], ks_5_1[9], kl_5_1[9], ks_5_2[9], kl_5_2[9], ks_5_3[9], kl_5_3[9], ks_5_4[9], kl_5_4[9], ks_5_5[9], kl_5_5[9], ks_6_0[9], kl_6_0[9], ks_6_1[9], kl_6_1[9], ks_6_2[9], kl_6_2[9], ks_6_3[9], kl_6_3[9], ks_6_4[9], kl_6_4[9], ks_6_5[9], kl_6_5[9];
+static void *g_items0[MAXF], *g_items1[MAXF], *g_items2[MAXF], *g_items3[MAXF], *g_items4[MAXF], *g_items5[MAXF], *g_items6[MAXF];
+static ldb_filemeta_t * const g_fmp[LDB_NUM_LEVELS][MAXF] = {
+  {&fm_0_0, &fm_0_1, &fm_0_2, &fm_0_3, &fm_0_4, &fm_0_5},
+  {&fm_1_0, &fm_1_1, &fm_1_2, &fm_1_3, &fm_1_4, &fm_1_5},
+  {&fm_2_0, &fm_2_1, &fm_2_2, &fm_2_3, &fm_2_4, &fm_2_5},
+  {&fm_3_0, &fm_3_1, &fm_3_2, &fm_3_3, &fm_3_4, &fm_3_5},
+  {&fm_4_0, &fm_4_1, &fm_4_2, &fm_4_3, &fm_4_4, &fm_4_5},
+  {&fm_5_0, &fm_5_1, &fm_5_2, &fm_5_3, &fm_5_4, &fm_5_5},
+  {&fm_6_0, &fm_6_1, &fm_6_2, &fm_6_3, &fm_6_4, &fm_6_5}};
+static uint8_t * const g_ksp[LDB_NUM_LEVELS][MAXF] = {
+  {ks_0_0, ks_0_1, ks_0_2, ks_0_3, ks_0_4, ks_0_5},
+  {ks_1_0, ks_1_1, ks_1_2, ks_1_3, ks_1_4, ks_1_5},
+  {ks_2_0, ks_2_1, ks_2_2, ks_2_3, ks_2_4, ks_2_5},
+  {ks_3_0, ks_3_1, ks_3_2, ks_3_3, ks_3_4, ks_3_5},
+  {ks_4_0, ks_4_1, ks_4_2, ks_4_3, ks_4_4, ks_4_5},
+  {ks_5_0, ks_5_1, ks_5_2, ks_5_3, ks_5_4, ks_5_5},
+  {ks_6_0, ks_6_1, ks_6_2, ks_6_3, ks_6_4, ks_6_5}};
+static uint8_t * const g_klp[LDB_NUM_LEVELS][MAXF] = {
+  {kl_0_0, kl_0_1, kl_0_2, kl_0_3, kl_0_4, kl_0_5},
+  {kl_1_0, kl_1_1, kl_1_2, kl_1_3, kl_1_4, kl_1_5},
+  {kl_2_0, kl_2_1, kl_2_2, kl_2_3, kl_2_4, kl_2_5},
+  {kl_3_0, kl_3_1, kl_3_2, kl_3_3, kl_3_4, kl_3_5},
+  {kl_4_0, kl_4_1, kl_4_2, kl_4_3, kl_4_4, kl_4_5},
+  {kl_5_0, kl_5_1, kl_5_2, kl_5_3, kl_5_4, kl_5_5},
+  {kl_6_0, kl_6_1, kl_6_2, kl_6_3, kl_6_4, kl_6_5}};
+static void **const g_itemsp[LDB_NUM_LEVELS] = {g_items0, g_items1, g_items2, g_items3, g_items4, g_items5, g_items6};
 static uint8_t g_suk[LDB_NUM_LEVELS][MAXF], g_luk[LDB_NUM_LEVELS][MAXF];     /* ghost: user key of smallest / largest */
 static uint64_t g_stag[LDB_NUM_LEVELS][MAXF], g_ltag[LDB_NUM_LEVELS][MAXF];  /* ghost: seq<<8|type of smallest / largest */
 static uint64_t g_num[LDB_NUM_LEVELS][MAXF], g_fsz[LDB_NUM_LEVELS][MAXF];    /* ghost: file number, size */
 static size_t g_n[LDB_NUM_LEVELS];                                            /* ghost: files per level */
-static ldb_filemeta_t g_fm[LDB_NUM_LEVELS][MAXF];
-static void *g_items[LDB_NUM_LEVELS][MAXF];
 static ldb_version_t g_ver;
 static ldb_dbopt_t g_opt;
 
@@ -127,14 +165,16 @@ static void mk_ikey(ldb_buffer_t *b, uint8_t *st, uint8_t uk, uint64_t tag) {
   b->data = st; b->size = 9; b->alloc = 0;
 }
 static void mk_file(int level, size_t i) {
-  ldb_filemeta_t *f = &g_fm[level][i];
+  ldb_filemeta_t *f = g_fmp[level][i];
   g_suk[level][i] = nondet_u8(); g_luk[level][i] = nondet_u8();
   g_stag[level][i] = nondet_u64(); g_ltag[level][i] = nondet_u64();
   g_num[level][i] = nondet_u64(); g_fsz[level][i] = nondet_u64();
+  /* metadata keys are valid internal keys: type byte is 0 (deletion) or 1 (value) */
+  __CPROVER_assume((g_stag[level][i] & 0xff) <= 1 && (g_ltag[level][i] & 0xff) <= 1);
   f->refs = 1; f->allowed_seeks = nondet_int(); f->number = g_num[level][i]; f->file_size = g_fsz[level][i];
-  mk_ikey(&f->smallest, g_ks[level][i], g_suk[level][i], g_stag[level][i]);
-  mk_ikey(&f->largest, g_kl[level][i], g_luk[level][i], g_ltag[level][i]);
-  g_items[level][i] = f;
+  mk_ikey(&f->smallest, g_ksp[level][i], g_suk[level][i], g_stag[level][i]);
+  mk_ikey(&f->largest, g_klp[level][i], g_luk[level][i], g_ltag[level][i]);
+  g_itemsp[level][i] = f;
 }
 /* n files with arbitrary keys, numbers and sizes in `level` (n <= MAXF) */
 static void mk_level(int level, size_t n) {
@@ -145,11 +185,11 @@ static void mk_level(int level, size_t n) {
   if (n > 4) mk_file(level, 4);
   if (n > 5) mk_file(level, 5);
   g_n[level] = n;
-  g_ver.files[level].items = g_items[level];
+  g_ver.files[level].items = g_itemsp[level];
   g_ver.files[level].length = n;
   g_ver.files[level].alloc = MAXF;
 }
-static void mk_empty(int l) { g_n[l] = 0; g_ver.files[l].items = g_items[l]; g_ver.files[l].length = 0; g_ver.files[l].alloc = MAXF; }
+static void mk_empty(int l) { g_n[l] = 0; g_ver.files[l].items = g_itemsp[l]; g_ver.files[l].length = 0; g_ver.files[l].alloc = MAXF; }
 static void mk_version(void) {
   g_opt.max_file_size = nondet_size();
   g_vset.options = &g_opt;
@@ -206,14 +246,14 @@ static uint8_t g_lo_v, g_hi_v;
 #define SPEC_OV_AT(l, i) ((i) < g_n[l] && !(g_has_lo && g_lo_v > g_luk[l][i]) && !(g_has_hi && g_hi_v < g_suk[l][i]))
 #define SPEC_OVERLAP(l) (SPEC_OV_AT(l,0) || SPEC_OV_AT(l,1) || SPEC_OV_AT(l,2) || SPEC_OV_AT(l,3))
 
-/* after_file / before_file: the key is passed as "lo" resp. "hi"; file = g_fm[g_lvl][0] */
+/* after_file / before_file: the key is passed as "lo" resp. "hi"; file = g_fmp[g_lvl][0] */
 int c_after_file(const ldb_comparator_t *ucmp, const ldb_slice_t *user_key, const ldb_filemeta_t *f)
-__CPROVER_requires(ucmp == &bytewise_comparator && user_key == LO_PTR && g_lvl >= 0 && g_lvl < LDB_NUM_LEVELS && f == &g_fm[g_lvl][0])
+__CPROVER_requires(ucmp == &bytewise_comparator && user_key == LO_PTR && g_lvl >= 0 && g_lvl < LDB_NUM_LEVELS && f == g_fmp[g_lvl][0])
 __CPROVER_assigns()
 __CPROVER_ensures(__CPROVER_return_value == ((g_has_lo && g_lo_v > g_luk[g_lvl][0]) ? 1 : 0))
 ;
 int c_before_file(const ldb_comparator_t *ucmp, const ldb_slice_t *user_key, const ldb_filemeta_t *f)
-__CPROVER_requires(ucmp == &bytewise_comparator && user_key == HI_PTR && g_lvl >= 0 && g_lvl < LDB_NUM_LEVELS && f == &g_fm[g_lvl][0])
+__CPROVER_requires(ucmp == &bytewise_comparator && user_key == HI_PTR && g_lvl >= 0 && g_lvl < LDB_NUM_LEVELS && f == g_fmp[g_lvl][0])
 __CPROVER_assigns()
 __CPROVER_ensures(__CPROVER_return_value == ((g_has_hi && g_hi_v < g_suk[g_lvl][0]) ? 1 : 0))
 ;
@@ -241,12 +281,12 @@ static void mk_bounds(void) {
 }
 void h_after_file(void) {
   mk_version(); mk_level(1, 1); g_lvl = 1; mk_bounds();
-  after_file(&bytewise_comparator, LO_PTR, &g_fm[1][0]);
+  after_file(&bytewise_comparator, LO_PTR, g_fmp[1][0]);
   CANARY();
 }
 void h_before_file(void) {
   mk_version(); mk_level(1, 1); g_lvl = 1; mk_bounds();
-  before_file(&bytewise_comparator, HI_PTR, &g_fm[1][0]);
+  before_file(&bytewise_comparator, HI_PTR, g_fmp[1][0]);
   CANARY();
 }
 void h_some_file_overlaps(void) {
@@ -259,7 +299,557 @@ void h_some_file_overlaps(void) {
 void h_overlap_in_level(void) {
   IN_SIZE(in_n); IN_INT(in_level);
   ASSUME(in_n <= OVF && in_level >= 0 && in_level < LDB_NUM_LEVELS);
-  mk_version(); mk_level(in_level, in_n); mk_bounds();
+  mk_version(); mk_bounds(); g_lvl = in_level;
+  switch (in_level) {
+    case 0: mk_level(0, in_n); break; case 1: mk_level(1, in_n); break; case 2: mk_level(2, in_n); break;
+    case 3: mk_level(3, in_n); break; case 4: mk_level(4, in_n); break; case 5: mk_level(5, in_n); break;
+    default: mk_level(6, in_n); break;
+  }
   ldb_version_overlap_in_level(&g_ver, in_level, LO_PTR, HI_PTR);
+  CANARY();
+}
+
+/* ======================================================================
+ * ver.picklevel - flush output never skips an overlapping level (C01, C14)
+ * ======================================================================
+ * ldb_version_overlap_in_level is replaced by its contract (ver.overlap.level);
+ * get_overlapping_inputs / total_file_size run for real on <= 2 files in the
+ * grandparent levels 2 and 3.
+ */
+#define PLF 2
+#define GP_AT(l, i) (SPEC_OV_AT(l, i) ? (int64_t)g_fsz[l][i] : (int64_t)0)
+#define GP_BYTES(l) (GP_AT(l, 0) + GP_AT(l, 1))            /* bytes of level l overlapping [lo, hi] */
+#define GP_LIMIT ((int64_t)(10 * (uint64_t)g_opt.max_file_size))
+/* may the output move from level l to level l+1 ? */
+#define PUSH_OK(l) (!SPEC_OVERLAP((l) + 1) && GP_BYTES((l) + 2) <= GP_LIMIT)
+#define SPEC_PICK (SPEC_OVERLAP(0) ? 0 : !PUSH_OK(0) ? 0 : !PUSH_OK(1) ? 1 : 2)
+
+int c_pick_level(ldb_version_t *ver, const ldb_slice_t *small_key, const ldb_slice_t *large_key)
+__CPROVER_requires(ver == &g_ver && small_key == &g_lo && large_key == &g_hi && g_has_lo && g_has_hi)
+__CPROVER_requires(g_n[0] <= PLF && g_n[1] <= PLF && g_n[2] <= PLF && g_n[3] <= PLF)
+__CPROVER_requires(DISJOINT_SORTED(1) && DISJOINT_SORTED(2) && DISJOINT_SORTED(3))
+__CPROVER_assigns()
+/* safety (C14/C01): never above the cap, never past or onto an overlapping level */
+__CPROVER_ensures(__CPROVER_return_value >= 0 && __CPROVER_return_value <= LDB_MAX_MEM_COMPACT_LEVEL)
+__CPROVER_ensures(__CPROVER_return_value > 0 ==> (!SPEC_OVERLAP(0) && !SPEC_OVERLAP(1)))
+__CPROVER_ensures(__CPROVER_return_value > 1 ==> !SPEC_OVERLAP(2))
+/* grandparent overlap limit respected at every step taken */
+__CPROVER_ensures(__CPROVER_return_value > 0 ==> GP_BYTES(2) <= GP_LIMIT)
+__CPROVER_ensures(__CPROVER_return_value > 1 ==> GP_BYTES(3) <= GP_LIMIT)
+/* and exactly as deep as those rules allow */
+__CPROVER_ensures(__CPROVER_return_value == SPEC_PICK)
+;
+
+void h_pick_level(void) {
+  IN_SIZE(in_n0); IN_SIZE(in_n1); IN_SIZE(in_n2); IN_SIZE(in_n3);
+  ASSUME(in_n0 <= PLF && in_n1 <= PLF && in_n2 <= PLF && in_n3 <= PLF);
+  mk_version(); mk_bounds();
+  mk_level(0, in_n0); mk_level(1, in_n1); mk_level(2, in_n2); mk_level(3, in_n3);
+  ASSUME(g_has_lo && g_has_hi);
+  /* sizes small enough that the int64 sums in total_file_size cannot overflow */
+  ASSUME(g_opt.max_file_size <= ((size_t)1 << 50));
+  ASSUME(g_fsz[2][0] <= ((uint64_t)1 << 50) && g_fsz[2][1] <= ((uint64_t)1 << 50) && g_fsz[3][0] <= ((uint64_t)1 << 50) && g_fsz[3][1] <= ((uint64_t)1 << 50));
+  ldb_version_pick_level_for_memtable_output(&g_ver, &g_lo, &g_hi);
+  CANARY();
+}
+
+/* ======================================================================
+ * ver.foreach - Version::Get consults tables in recency order (C01, C06, C11)
+ * ======================================================================
+ * ldb_tables_get is a stub: it checks the file it is asked for against the
+ * expected visit sequence (computed by the harness from the ghost scalars),
+ * then nondeterministically fails, finds nothing, or hands one stored entry
+ * (arbitrary bytes, 0..10 key bytes, possibly corrupt) to the callback.  It
+ * classifies the entry itself, from the LevelDB internal-key format.
+ */
+#define GETF0 3
+#define GETFL 2
+#define D_NONE 0
+#define D_ERR 1
+#define D_VALUE 2
+#define D_DEL 3
+#define D_CORRUPT 4
+static ldb_tables_t *g_cache;          /* opaque token */
+static ldb_readopt_t g_ropt;
+static ldb_lkey_t g_lk; static uint8_t g_uk; static uint64_t g_lseq;
+static uint64_t g_exp_num[GETF0 + 6], g_exp_sz[GETF0 + 6]; static ldb_filemeta_t *g_exp_f[GETF0 + 6]; static int g_exp_lvl[GETF0 + 6];
+static size_t g_exp_n, g_calls;
+static int g_decided, g_rc;
+static uint8_t g_ek[10], g_ev[2]; static size_t g_vn;
+
+int ldb_tables_get(ldb_tables_t *cache, const ldb_readopt_t *options, uint64_t file_number, uint64_t file_size,
+                   const ldb_slice_t *k, void *arg, void (*handle_result)(void *, const ldb_slice_t *, const ldb_slice_t *)) {
+  int rc;
+  __CPROVER_assert(cache == g_cache && options == &g_ropt, "get: table cache and read options are passed through");
+  __CPROVER_assert(g_decided == D_NONE, "get: no table is consulted after a decisive answer (value, tombstone, corruption, error)");
+  __CPROVER_assert(g_calls < g_exp_n && file_number == g_exp_num[g_calls] && file_size == g_exp_sz[g_calls],
+                   "get: tables are consulted in recency order - level-0 files containing the key by descending number, then the single candidate of each level 1..6");
+  __CPROVER_assert(k->size == 9 && k->data == g_lk.kstart, "get: the table is searched for the lookup key's internal key");
+  g_calls++;
+  rc = nondet_int();
+  if (rc != LDB_OK) { g_decided = D_ERR; g_rc = rc; return rc; }
+  if (nondet_int()) {
+    /* the table has an entry at or after the internal key: arbitrary stored bytes */
+    ldb_slice_t ek, ev;
+    size_t en = nondet_size();
+    __CPROVER_assume(en <= 10);
+    g_vn = nondet_size();
+    __CPROVER_assume(g_vn <= 2);
+    ek.data = g_ek; ek.size = en; ek.alloc = 0;
+    ev.data = g_ev; ev.size = g_vn; ev.alloc = 0;
+    /* internal-key format: user key, then LE64(seq << 8 | type); type 0 = deletion, 1 = value */
+    if (en < 8 || g_ek[en - 8] > 1)
+      g_decided = D_CORRUPT;
+    else if (en == 9 && g_ek[0] == g_uk)
+      g_decided = g_ek[en - 8] == 1 ? D_VALUE : D_DEL;
+    handle_result(arg, &ek, &ev);
+  }
+  return LDB_OK;
+}
+
+#define VAL_IS_ENTRY(value) ((value)->size == g_vn && (g_vn < 1 || (value)->data[0] == g_ev[0]) && (g_vn < 2 || (value)->data[1] == g_ev[1]))
+int c_version_get(ldb_version_t *ver, const ldb_readopt_t *options, const ldb_lkey_t *k, ldb_buffer_t *value, ldb_getstats_t *stats)
+__CPROVER_requires(ver == &g_ver && options == &g_ropt && k == &g_lk && __CPROVER_rw_ok(stats, sizeof(*stats)))
+__CPROVER_requires(value == NULL || (__CPROVER_rw_ok(value, sizeof(*value)) && value->data == NULL && value->size == 0 && value->alloc == 0))
+__CPROVER_requires(g_calls == 0 && g_decided == D_NONE)
+__CPROVER_assigns(stats->seek_file, stats->seek_file_level, g_calls, g_decided, g_rc, g_vn)
+__CPROVER_assigns(value != NULL: value->data, value->size, value->alloc)
+/* nothing decisive: every expected table was consulted, result NOTFOUND */
+__CPROVER_ensures(g_decided == D_NONE ==> (__CPROVER_return_value == LDB_NOTFOUND && g_calls == g_exp_n))
+__CPROVER_ensures(g_decided == D_ERR ==> __CPROVER_return_value == g_rc)
+__CPROVER_ensures(g_decided == D_DEL ==> __CPROVER_return_value == LDB_NOTFOUND)
+__CPROVER_ensures(g_decided == D_CORRUPT ==> __CPROVER_return_value == LDB_CORRUPTION)
+__CPROVER_ensures(g_decided == D_VALUE ==> (__CPROVER_return_value == LDB_OK && (value == NULL || VAL_IS_ENTRY(value))))
+__CPROVER_ensures(g_decided != D_VALUE && value != NULL ==> (value->size == 0 && value->data == NULL))
+/* seek accounting: the first table read is charged iff a second one had to be read */
+__CPROVER_ensures(g_calls >= 2 ? (stats->seek_file == g_exp_f[0] && stats->seek_file_level == g_exp_lvl[0])
+                               : (stats->seek_file == NULL && stats->seek_file_level == -1))
+;
+
+/* expected visit sequence, from the ghost scalars only */
+static void exp_push(int l, size_t i) {
+  g_exp_num[g_exp_n] = g_num[l][i]; g_exp_sz[g_exp_n] = g_fsz[l][i]; g_exp_f[g_exp_n] = g_fmp[l][i]; g_exp_lvl[g_exp_n] = l; g_exp_n++;
+}
+#define L0_HAS(i) ((i) < g_n[0] && g_suk[0][i] <= g_uk && g_uk <= g_luk[0][i])
+static void exp_level0(void) {
+  /* selection by descending file number among the level-0 files whose user range contains the key */
+  int done0 = 0, done1 = 0, done2 = 0, round;
+  for (round = 0; round < GETF0; round++) {
+    int c0 = L0_HAS(0) && !done0, c1 = L0_HAS(1) && !done1, c2 = L0_HAS(2) && !done2;
+    if (c0 && (!c1 || g_num[0][0] > g_num[0][1]) && (!c2 || g_num[0][0] > g_num[0][2])) { exp_push(0, 0); done0 = 1; }
+    else if (c1 && (!c2 || g_num[0][1] > g_num[0][2])) { exp_push(0, 1); done1 = 1; }
+    else if (c2) { exp_push(0, 2); done2 = 1; }
+  }
+}
+static void exp_level(int l) {
+  /* first file whose largest key is >= the lookup internal key (uk, seq<<8|1); consulted iff its smallest user key <= uk */
+  uint64_t tag = (g_lseq << 8) | 1;
+  size_t i;
+  if (g_n[l] > 0 && LE_(g_uk, tag, g_luk[l][0], g_ltag[l][0])) i = 0;
+  else if (g_n[l] > 1 && LE_(g_uk, tag, g_luk[l][1], g_ltag[l][1])) i = 1;
+  else return;
+  if (g_suk[l][i] <= g_uk) exp_push(l, i);
+}
+
+void h_version_get(void) {
+  IN_SIZE(in_n0); IN_SIZE(in_n1); IN_SIZE(in_n2); IN_SIZE(in_n3); IN_SIZE(in_n4); IN_SIZE(in_n5); IN_SIZE(in_n6); IN_INT(in_want_value);
+  ldb_buffer_t value; ldb_getstats_t stats;
+  ASSUME(in_n0 <= GETF0 && in_n1 <= GETFL && in_n2 <= GETFL && in_n3 <= GETFL && in_n4 <= GETFL && in_n5 <= GETFL && in_n6 <= GETFL);
+  mk_version();
+  mk_level(0, in_n0); mk_level(1, in_n1); mk_level(2, in_n2); mk_level(3, in_n3); mk_level(4, in_n4); mk_level(5, in_n5); mk_level(6, in_n6);
+  ASSUME(DISJOINT_SORTED(1) && DISJOINT_SORTED(2) && DISJOINT_SORTED(3) && DISJOINT_SORTED(4) && DISJOINT_SORTED(5) && DISJOINT_SORTED(6));
+  /* level-0 files have distinct numbers (the allocator never hands a number out twice: ver.numbers) */
+  ASSUME(g_num[0][0] != g_num[0][1] && g_num[0][0] != g_num[0][2] && g_num[0][1] != g_num[0][2]);
+  g_cache = (ldb_tables_t *)&g_ropt; g_vset.table_cache = g_cache;
+  /* lookup key: varint32(9) uk LE64(seq<<8|1) */
+  g_uk = nondet_u8(); g_lseq = nondet_u64(); ASSUME(g_lseq <= LDB_MAX_SEQUENCE);
+  g_lk.space[0] = 9;
+  { ldb_buffer_t t; mk_ikey(&t, g_lk.space + 1, g_uk, (g_lseq << 8) | 1); }
+  g_lk.start = g_lk.space; g_lk.kstart = g_lk.space + 1; g_lk.end = g_lk.space + 10;
+  g_exp_n = 0; exp_level0(); exp_level(1); exp_level(2); exp_level(3); exp_level(4); exp_level(5); exp_level(6);
+  g_calls = 0; g_decided = D_NONE; g_rc = 0; g_vn = 0;
+  value.data = NULL; value.size = 0; value.alloc = 0;
+  ldb_version_get(&g_ver, &g_ropt, &g_lk, in_want_value ? &value : NULL, &stats);
+  CANARY();
+}
+
+/* ---- ver.foreach proper: visit order of for_each_overlapping with a recording callback ---- */
+static int g_stopped; static int g_cb_arg;
+static ldb_slice_t g_uks, g_iks;
+static int fe_cb(void *arg, int level, ldb_filemeta_t *f) {
+  __CPROVER_assert(arg == &g_cb_arg, "for_each_overlapping: callback argument passed through");
+  __CPROVER_assert(!g_stopped, "for_each_overlapping: no file is visited after the callback asked to stop");
+  __CPROVER_assert(g_calls < g_exp_n && f == g_exp_f[g_calls] && level == g_exp_lvl[g_calls],
+                   "for_each_overlapping: files are visited in recency order - level-0 files containing the key by descending number, then the single candidate of each level 1..6");
+  g_calls++;
+  if (nondet_int()) return 1;
+  g_stopped = 1;
+  return 0;
+}
+void c_for_each_overlapping(ldb_version_t *ver, const ldb_slice_t *user_key, const ldb_slice_t *internal_key, void *arg,
+                            int (*func)(void *, int, ldb_filemeta_t *))
+__CPROVER_requires(ver == &g_ver && user_key == &g_uks && internal_key == &g_iks && arg == &g_cb_arg && func == fe_cb)
+__CPROVER_requires(g_calls == 0 && g_stopped == 0)
+__CPROVER_assigns(g_calls, g_stopped)
+/* unless the callback stops the walk, every expected file is visited (NOTFOUND only after all were consulted) */
+__CPROVER_ensures(!g_stopped ==> g_calls == g_exp_n)
+;
+static void mk_lookup(void) {
+  g_uk = nondet_u8(); g_lseq = nondet_u64(); ASSUME(g_lseq <= LDB_MAX_SEQUENCE);
+  g_lk.space[0] = 9;
+  { ldb_buffer_t t; mk_ikey(&t, g_lk.space + 1, g_uk, (g_lseq << 8) | 1); }
+  g_lk.start = g_lk.space; g_lk.kstart = g_lk.space + 1; g_lk.end = g_lk.space + 10;
+  g_uks.data = g_lk.space + 1; g_uks.size = 1; g_uks.alloc = 0;
+  g_iks.data = g_lk.space + 1; g_iks.size = 9; g_iks.alloc = 0;
+}
+static void for_each_common(size_t in_n0, size_t in_n1, size_t in_n2, size_t in_n3, size_t in_n4, size_t in_n5, size_t in_n6) {
+  ASSUME(in_n0 <= GETF0 && in_n1 <= GETFL && in_n2 <= GETFL && in_n3 <= GETFL && in_n4 <= GETFL && in_n5 <= GETFL && in_n6 <= GETFL);
+  mk_version();
+  mk_level(0, in_n0); mk_level(1, in_n1); mk_level(2, in_n2); mk_level(3, in_n3); mk_level(4, in_n4); mk_level(5, in_n5); mk_level(6, in_n6);
+  ASSUME(DISJOINT_SORTED(1) && DISJOINT_SORTED(2) && DISJOINT_SORTED(3) && DISJOINT_SORTED(4) && DISJOINT_SORTED(5) && DISJOINT_SORTED(6));
+  ASSUME(g_num[0][0] != g_num[0][1] && g_num[0][0] != g_num[0][2] && g_num[0][1] != g_num[0][2]);
+  mk_lookup();
+  g_exp_n = 0; exp_level0(); exp_level(1); exp_level(2); exp_level(3); exp_level(4); exp_level(5); exp_level(6);
+  g_calls = 0; g_stopped = 0;
+  ldb_version_for_each_overlapping(&g_ver, &g_uks, &g_iks, &g_cb_arg, fe_cb);
+}
+/* level 0 in depth: <= 3 overlapping files, sorted by the real ldb_vector_sort; then one level-1 candidate */
+void h_for_each_l0(void) {
+  IN_SIZE(in_n0); IN_SIZE(in_n1);
+  ASSUME(in_n1 <= 1);
+  for_each_common(in_n0, in_n1, 0, 0, 0, 0, 0);
+  CANARY();
+}
+/* all levels: <= 1 file in level 0, <= 2 files in each level 1..6 */
+void h_for_each_levels(void) {
+  IN_SIZE(in_n0); IN_SIZE(in_n1); IN_SIZE(in_n2); IN_SIZE(in_n3); IN_SIZE(in_n4); IN_SIZE(in_n5); IN_SIZE(in_n6);
+  ASSUME(in_n0 <= 1);
+  for_each_common(in_n0, in_n1, in_n2, in_n3, in_n4, in_n5, in_n6);
+  CANARY();
+}
+
+/* ---- ver.getstate: one table consulted, outcome mapping and seek accounting ---- */
+static getstate_t g_gs; static ldb_getstats_t g_st; static ldb_buffer_t g_val;
+static ldb_filemeta_t *g_old_last, *g_old_seek; static int g_old_last_lvl, g_old_seek_lvl, g_gs_lvl, g_want_val;
+int c_getstate_match(void *arg, int level, ldb_filemeta_t *f)
+__CPROVER_requires(arg == &g_gs && f == g_fmp[1][0] && level == g_gs_lvl)
+__CPROVER_requires(g_calls == 0 && g_decided == D_NONE && g_gs.saver.state == S_NOTFOUND && g_gs.found == 0 && g_gs.status == LDB_OK)
+__CPROVER_assigns(g_gs.status, g_gs.found, g_gs.last_file_read, g_gs.last_file_read_level, g_gs.saver.state, g_st.seek_file, g_st.seek_file_level,
+                  g_calls, g_decided, g_rc, g_vn, g_val.data, g_val.size, g_val.alloc)
+__CPROVER_ensures(g_calls == 1)  /* exactly this table was consulted (the stub checks which) */
+/* keep searching only if the table had nothing for this user key */
+__CPROVER_ensures(__CPROVER_return_value == (g_decided == D_NONE ? 1 : 0))
+__CPROVER_ensures(g_decided == D_NONE ==> (g_gs.found == 0 && g_gs.status == LDB_OK))
+__CPROVER_ensures(g_decided == D_ERR ==> (g_gs.found == 1 && g_gs.status == g_rc))
+__CPROVER_ensures(g_decided == D_VALUE ==> (g_gs.found == 1 && g_gs.status == LDB_OK && (!g_want_val || VAL_IS_ENTRY(&g_val))))
+__CPROVER_ensures(g_decided == D_DEL ==> g_gs.found == 0)                 /* a tombstone ends the search with NOTFOUND */
+__CPROVER_ensures(g_decided == D_CORRUPT ==> (g_gs.found == 1 && g_gs.status == LDB_CORRUPTION))
+__CPROVER_ensures(g_decided != D_VALUE ==> g_val.size == 0)
+/* seek accounting */
+__CPROVER_ensures(g_gs.last_file_read == f && g_gs.last_file_read_level == level)
+__CPROVER_ensures((g_old_seek == NULL && g_old_last != NULL) ? (g_st.seek_file == g_old_last && g_st.seek_file_level == g_old_last_lvl)
+                                                            : (g_st.seek_file == g_old_seek && g_st.seek_file_level == g_old_seek_lvl))
+;
+void h_getstate_match(void) {
+  IN_INT(in_level); IN_INT(in_has_last); IN_INT(in_has_seek); IN_INT(in_want_value);
+  mk_version(); mk_level(1, 1); mk_level(2, 1);
+  g_cache = (ldb_tables_t *)&g_ropt; g_vset.table_cache = g_cache;
+  mk_lookup();
+  g_gs_lvl = in_level; g_want_val = in_want_value ? 1 : 0;
+  g_old_last = in_has_last ? g_fmp[2][0] : NULL; g_old_last_lvl = nondet_int();
+  g_old_seek = in_has_seek ? g_fmp[2][0] : NULL; g_old_seek_lvl = nondet_int();
+  g_val.data = NULL; g_val.size = 0; g_val.alloc = 0;
+  g_st.seek_file = g_old_seek; g_st.seek_file_level = g_old_seek_lvl;
+  g_gs.saver.state = S_NOTFOUND; g_gs.saver.ucmp = &bytewise_comparator; g_gs.saver.user_key = g_uks; g_gs.saver.value = g_want_val ? &g_val : NULL;
+  g_gs.stats = &g_st; g_gs.options = &g_ropt; g_gs.ikey = g_iks; g_gs.last_file_read = g_old_last; g_gs.last_file_read_level = g_old_last_lvl;
+  g_gs.vset = &g_vset; g_gs.status = LDB_OK; g_gs.found = 0;
+  g_exp_n = 1; g_exp_num[0] = g_num[1][0]; g_exp_sz[0] = g_fsz[1][0]; g_exp_f[0] = g_fmp[1][0]; g_exp_lvl[0] = in_level;
+  g_calls = 0; g_decided = D_NONE; g_rc = 0; g_vn = 0;
+  getstate_match(&g_gs, in_level, g_fmp[1][0]);
+  CANARY();
+}
+
+/* ---- ver.get: the whole chain on a small version (<= 1 file in level 0, <= 1 file in level 1) ---- */
+void h_version_get_small(void) {
+  IN_SIZE(in_n0); IN_SIZE(in_n1); IN_INT(in_want_value);
+  ldb_buffer_t value; ldb_getstats_t stats;
+  ASSUME(in_n0 <= 1 && in_n1 <= 1);
+  mk_version(); mk_level(0, in_n0); mk_level(1, in_n1);
+  ASSUME(DISJOINT_SORTED(1));
+  g_cache = (ldb_tables_t *)&g_ropt; g_vset.table_cache = g_cache;
+  mk_lookup();
+  g_exp_n = 0; exp_level0(); exp_level(1);
+  g_calls = 0; g_decided = D_NONE; g_rc = 0; g_vn = 0;
+  value.data = NULL; value.size = 0; value.alloc = 0;
+  ldb_version_get(&g_ver, &g_ropt, &g_lk, in_want_value ? &value : NULL, &stats);
+  CANARY();
+}
+
+/* ======================================================================
+ * ver.find.any - find_file on a list of ANY length (loop contract)
+ * ======================================================================
+ * The comparator is a recording oracle: it answers arbitrarily and remembers
+ * the last element key it called "< key" (ff_lo_p) and the last it called
+ * ">= key" (ff_hi_p).  Contract: the result r is a transition point -
+ * files[r-1].largest was answered "< key" (if r > 0) and files[r].largest
+ * ">= key" (if r < n).  In a list sorted by largest (answers monotone) the
+ * transition point is unique, i.e. r is the lower bound (paper lemma; the
+ * bounded unit ver.find checks the lower bound itself with the real
+ * comparators).  No element is dereferenced; n <= 2^31-1 because find_file
+ * narrows the length to uint32_t and returns int.
+ */
+static const ldb_slice_t *ff_lo_p, *ff_hi_p, *ff_key;
+static const ldb_comparator_t *ff_icmp;
+static size_t ff_n;
+static int ff_compare(const ldb_comparator_t *c, const ldb_slice_t *x, const ldb_slice_t *y) {
+  int r = nondet_int();
+  __CPROVER_assert(c == ff_icmp && y == ff_key, "find_file: compares element keys (left) with the probe key (right) under the given comparator");
+  if (r < 0) ff_lo_p = x; else ff_hi_p = x;
+  return r;
+}
+#define FF_LARGEST(files, i) (&((ldb_filemeta_t *)(files)->items[i])->largest)
+int c_find_file_any(const ldb_comparator_t *icmp, const ldb_vector_t *files, const ldb_slice_t *key)
+__CPROVER_requires(__CPROVER_r_ok(files, sizeof(*files)) && __CPROVER_r_ok(icmp, sizeof(*icmp)) && icmp->compare == ff_compare)
+__CPROVER_requires(icmp == ff_icmp && key == ff_key && files->length == ff_n && ff_n <= 2147483647)
+__CPROVER_requires(ff_n == 0 || __CPROVER_r_ok(files->items, ff_n * sizeof(void *)))
+__CPROVER_assigns(ff_lo_p, ff_hi_p)
+__CPROVER_ensures(__CPROVER_return_value >= 0 && (size_t)__CPROVER_return_value <= ff_n)
+__CPROVER_ensures(__CPROVER_return_value > 0 ==> ff_lo_p == FF_LARGEST(files, __CPROVER_return_value - 1))
+__CPROVER_ensures((size_t)__CPROVER_return_value < ff_n ==> ff_hi_p == FF_LARGEST(files, __CPROVER_return_value))
+;
+void h_find_file_any(void) {
+  ldb_comparator_t icmp; ldb_vector_t files; ldb_slice_t key;
+  IN_SIZE(in_n);
+  ASSUME(in_n <= 2147483647);
+  ff_n = in_n; ff_lo_p = NULL; ff_hi_p = NULL;
+  files.items = malloc(in_n * sizeof(void *));
+  ASSUME(files.items != NULL);
+  files.length = in_n; files.alloc = in_n;
+  icmp.name = "oracle"; icmp.compare = ff_compare; icmp.shortest_separator = NULL; icmp.short_successor = NULL;
+  icmp.user_comparator = NULL; icmp.state = NULL;
+  key.data = NULL; key.size = 0; key.alloc = 0;
+  ff_icmp = &icmp; ff_key = &key;
+  find_file(&icmp, &files, &key);
+  CANARY();
+}
+
+/* ======================================================================
+ * ver.inputs - get_overlapping_inputs returns exactly the overlapping files
+ * (C14, C01); level 0: the set is closed under range expansion
+ * ====================================================================== */
+#define INF 4
+static ldb_ikey_t g_bk, g_ek2; static uint8_t g_bk_b[9], g_ek_b[9];
+static ldb_vector_t g_inputs;
+static uint8_t g_xlo, g_xhi;       /* ghost: the (expanded) user-key range the result must correspond to */
+#define BEGIN_PTR (g_has_lo ? &g_bk : (const ldb_ikey_t *)NULL)
+#define END_PTR (g_has_hi ? &g_ek2 : (const ldb_ikey_t *)NULL)
+#define EXP_IN(l, i) ((i) < g_n[l] && !(g_has_lo && g_xlo > g_luk[l][i]) && !(g_has_hi && g_xhi < g_suk[l][i]))
+#define EXP_CNT(l) ((EXP_IN(l,0) ? 1 : 0) + (EXP_IN(l,1) ? 1 : 0) + (EXP_IN(l,2) ? 1 : 0) + (EXP_IN(l,3) ? 1 : 0))
+#define IN_MEMBER(l, i) ((g_inputs.length > 0 && g_inputs.items[0] == g_fmp[l][i]) || (g_inputs.length > 1 && g_inputs.items[1] == g_fmp[l][i]) || \
+                         (g_inputs.length > 2 && g_inputs.items[2] == g_fmp[l][i]) || (g_inputs.length > 3 && g_inputs.items[3] == g_fmp[l][i]))
+#define IN_EXACT_AT(l, i) ((EXP_IN(l, i) ? 1 : 0) == (IN_MEMBER(l, i) ? 1 : 0))
+#define EXP_FIRST(l) (EXP_IN(l,0) ? 0 : EXP_IN(l,1) ? 1 : EXP_IN(l,2) ? 2 : 3)
+#define IN_ORDER_AT(l, j) ((j) >= g_inputs.length || g_inputs.items[j] == g_fmp[l][EXP_FIRST(l) + (j)])
+
+void c_get_overlapping_inputs(ldb_version_t *ver, int level, const ldb_ikey_t *begin, const ldb_ikey_t *end, ldb_vector_t *inputs)
+__CPROVER_requires(ver == &g_ver && level == g_lvl && g_lvl >= 0 && g_lvl < LDB_NUM_LEVELS && begin == BEGIN_PTR && end == END_PTR && inputs == &g_inputs)
+__CPROVER_requires(g_n[g_lvl] <= INF && g_inputs.items == NULL && g_inputs.alloc == 0)
+__CPROVER_requires(g_lvl > 0 ==> DISJOINT_SORTED(g_lvl))
+__CPROVER_assigns(g_inputs.items, g_inputs.length, g_inputs.alloc)
+/* exactly the files of the level that overlap the (level 0: expanded) range, each once */
+__CPROVER_ensures(g_inputs.length == (size_t)EXP_CNT(g_lvl))
+__CPROVER_ensures(IN_EXACT_AT(g_lvl, 0) && IN_EXACT_AT(g_lvl, 1) && IN_EXACT_AT(g_lvl, 2) && IN_EXACT_AT(g_lvl, 3))
+/* sorted levels: in file order (a contiguous run of the level) */
+__CPROVER_ensures(g_lvl > 0 ==> (IN_ORDER_AT(g_lvl, 0) && IN_ORDER_AT(g_lvl, 1) && IN_ORDER_AT(g_lvl, 2) && IN_ORDER_AT(g_lvl, 3)))
+;
+static void mk_range_keys(void) {
+  mk_bounds();
+  mk_ikey(&g_bk, g_bk_b, g_lo_v, nondet_u64());
+  mk_ikey(&g_ek2, g_ek_b, g_hi_v, nondet_u64());
+  g_inputs.items = NULL; g_inputs.length = 0; g_inputs.alloc = 0;
+}
+/* level 0: least fixpoint of "add every file overlapping the range, widen the range to it" (independent of the code's restart logic) */
+static void spec_expand(int l) {
+  int round; size_t i;
+  g_xlo = g_lo_v; g_xhi = g_hi_v;
+  for (round = 0; round < INF; round++)
+    for (i = 0; i < INF; i++)
+      if (EXP_IN(l, i)) {
+        if (g_has_lo && g_suk[l][i] < g_xlo) g_xlo = g_suk[l][i];
+        if (g_has_hi && g_luk[l][i] > g_xhi) g_xhi = g_luk[l][i];
+      }
+}
+void h_inputs_sorted(void) {
+  IN_SIZE(in_n); IN_INT(in_deep);
+  ASSUME(in_n <= INF);
+  mk_version(); mk_range_keys();
+  if (in_deep) { mk_level(6, in_n); g_lvl = 6; } else { mk_level(1, in_n); g_lvl = 1; }
+  g_xlo = g_lo_v; g_xhi = g_hi_v;
+  ldb_version_get_overlapping_inputs(&g_ver, g_lvl, BEGIN_PTR, END_PTR, &g_inputs);
+  CANARY();
+}
+void h_inputs_level0(void) {
+  IN_SIZE(in_n);
+  ASSUME(in_n <= 3);
+  mk_version(); mk_range_keys(); mk_level(0, in_n); g_lvl = 0;
+  /* files are well-formed: smallest user key <= largest user key */
+  ASSUME((in_n < 1 || g_suk[0][0] <= g_luk[0][0]) && (in_n < 2 || g_suk[0][1] <= g_luk[0][1]) && (in_n < 3 || g_suk[0][2] <= g_luk[0][2]));
+  spec_expand(0);
+  ldb_version_get_overlapping_inputs(&g_ver, 0, BEGIN_PTR, END_PTR, &g_inputs);
+  CANARY();
+}
+
+/* ======================================================================
+ * ver.boundary - no older version of the boundary user key is left behind
+ * (C01, C14); n <= 4 files in the level, level 1 model, files only
+ * individually well-formed (smallest <= largest), any order
+ * ====================================================================== */
+#define BF 4
+#define WF_AT(l, i) ((i) >= g_n[l] || LE_(g_suk[l][i], g_stag[l][i], g_luk[l][i], g_ltag[l][i]))
+#define WF_FILES(l) (WF_AT(l,0) && WF_AT(l,1) && WF_AT(l,2) && WF_AT(l,3))
+static ldb_slice_t g_out;
+#define ALL_LE_L(l, m) (((0) >= g_n[l] || LE_(g_luk[l][0], g_ltag[l][0], g_luk[l][m], g_ltag[l][m])) && ((1) >= g_n[l] || LE_(g_luk[l][1], g_ltag[l][1], g_luk[l][m], g_ltag[l][m])) && \
+                        ((2) >= g_n[l] || LE_(g_luk[l][2], g_ltag[l][2], g_luk[l][m], g_ltag[l][m])) && ((3) >= g_n[l] || LE_(g_luk[l][3], g_ltag[l][3], g_luk[l][m], g_ltag[l][m])))
+#define IS_MAX_L(l, m) ((m) < g_n[l] && g_out.data == g_klp[l][m] && g_out.size == 9 && ALL_LE_L(l, m))
+int c_find_largest_key(const ldb_comparator_t *icmp, const ldb_vector_t *files, ldb_slice_t *largest_key)
+__CPROVER_requires(icmp == &g_vset.icmp && files == &g_ver.files[1] && largest_key == &g_out && g_n[1] <= BF)
+__CPROVER_assigns(g_out)
+__CPROVER_ensures(__CPROVER_return_value == (g_n[1] > 0 ? 1 : 0))
+/* the result is the largest key of a file none of whose peers has a larger one */
+__CPROVER_ensures(g_n[1] > 0 ==> (IS_MAX_L(1, 0) || IS_MAX_L(1, 1) || IS_MAX_L(1, 2) || IS_MAX_L(1, 3)))
+;
+/* file i starts with the probe key's user key at a larger internal key (an older version of that user key) */
+#define ISB(l, i) ((i) < g_n[l] && g_suk[l][i] == g_kuk && LT_(g_kuk, g_ktag, g_suk[l][i], g_stag[l][i]))
+#define ISB_MIN_OVER(l, m, i) (!ISB(l, i) || LE_(g_suk[l][m], g_stag[l][m], g_suk[l][i], g_stag[l][i]))
+#define ISB_MIN(l, m, r) ((r) == g_fmp[l][m] && ISB(l, m) && ISB_MIN_OVER(l, m, 0) && ISB_MIN_OVER(l, m, 1) && ISB_MIN_OVER(l, m, 2) && ISB_MIN_OVER(l, m, 3))
+ldb_filemeta_t *c_find_smallest_boundary_file(const ldb_comparator_t *icmp, const ldb_vector_t *level_files, const ldb_ikey_t *largest_key)
+__CPROVER_requires(icmp == &g_vset.icmp && level_files == &g_ver.files[1] && largest_key == &g_key && g_n[1] <= BF)
+__CPROVER_assigns()
+__CPROVER_ensures((__CPROVER_return_value == NULL) == !(ISB(1, 0) || ISB(1, 1) || ISB(1, 2) || ISB(1, 3)))
+__CPROVER_ensures(__CPROVER_return_value != NULL ==> (ISB_MIN(1, 0, __CPROVER_return_value) || ISB_MIN(1, 1, __CPROVER_return_value) ||
+                                                      ISB_MIN(1, 2, __CPROVER_return_value) || ISB_MIN(1, 3, __CPROVER_return_value)))
+;
+void h_find_largest_key(void) {
+  IN_SIZE(in_n);
+  ASSUME(in_n <= BF);
+  mk_version(); mk_level(1, in_n);
+  find_largest_key(&g_vset.icmp, &g_ver.files[1], &g_out);
+  CANARY();
+}
+void h_find_smallest_boundary(void) {
+  IN_SIZE(in_n);
+  ASSUME(in_n <= BF);
+  mk_version(); mk_level(1, in_n);
+  g_kuk = nondet_u8(); g_ktag = nondet_u64(); ASSUME((g_ktag & 0xff) <= 1); mk_ikey(&g_key, g_key_b, g_kuk, g_ktag);
+  find_smallest_boundary_file(&g_vset.icmp, &g_ver.files[1], &g_key);
+  CANARY();
+}
+/* add_boundary_inputs: plain harness, the property is evaluated after the call */
+void h_add_boundary_inputs(void) {
+  IN_SIZE(in_n); IN_SIZE(in_a); IN_SIZE(in_b); IN_INT(in_two);
+  ldb_vector_t cf; size_t i, j, m = 0, k0; int member[BF]; int have = 0;
+  ASSUME(in_n <= BF && in_n >= 1 && in_a < in_n && in_b < in_n && in_a != in_b);
+  mk_version(); mk_level(1, in_n);
+  ASSUME(WF_FILES(1));
+  ldb_vector_init(&cf);
+  ldb_vector_push(&cf, g_fmp[1][in_a]);
+  if (in_two) ldb_vector_push(&cf, g_fmp[1][in_b]);
+  k0 = cf.length;
+  add_boundary_inputs(&g_vset.icmp, &g_ver.files[1], &cf);
+  CHECK(cf.length >= k0 && cf.length <= in_n, "add_boundary_inputs: only grows the set, by files of the level, each at most once");
+  CHECK(cf.items[0] == g_fmp[1][in_a] && (!in_two || cf.items[1] == g_fmp[1][in_b]), "add_boundary_inputs: the given inputs stay in place");
+  for (i = 0; i < BF; i++) member[i] = 0;
+  for (j = 0; j < BF; j++)
+    if (j < cf.length) {
+      int hit = 0;
+      for (i = 0; i < BF; i++)
+        if (i < in_n && cf.items[j] == g_fmp[1][i]) { CHECK(!member[i], "add_boundary_inputs: no file is added twice"); member[i] = 1; hit = 1; }
+      CHECK(hit, "add_boundary_inputs: every element is a file of the level");
+    }
+  /* m = a member with the largest `largest` key */
+  for (i = 0; i < BF; i++)
+    if (i < in_n && member[i] && (!have || LT_(g_luk[1][m], g_ltag[1][m], g_luk[1][i], g_ltag[1][i]))) { m = i; have = 1; }
+  for (i = 0; i < BF; i++)
+    if (i < in_n && !member[i])
+      CHECK(!(g_suk[1][i] == g_luk[1][m] && LT_(g_luk[1][m], g_ltag[1][m], g_suk[1][i], g_stag[1][i])),
+            "add_boundary_inputs: no file left outside the set starts with the user key the set ends with at a larger internal key (an older version of that key would stay behind in the level)");
+  CANARY();
+}
+
+/* ======================================================================
+ * ver.base - is_base_level_for_key (C01, C06); <= 2 files in levels 2..6
+ * ====================================================================== */
+static ldb_compaction_t g_c; static uint8_t g_bq;   /* probe user key */
+static ldb_slice_t g_bqs; static uint8_t g_bq_b[1];
+#define HAS_KEY_AT(l, i) ((l) >= g_c.level + 2 && (i) < g_n[l] && g_suk[l][i] <= g_bq && g_bq <= g_luk[l][i])
+#define HAS_KEY_BELOW (HAS_KEY_AT(2,0) || HAS_KEY_AT(2,1) || HAS_KEY_AT(3,0) || HAS_KEY_AT(3,1) || HAS_KEY_AT(4,0) || HAS_KEY_AT(4,1) || \
+                       HAS_KEY_AT(5,0) || HAS_KEY_AT(5,1) || HAS_KEY_AT(6,0) || HAS_KEY_AT(6,1))
+/* every file before the level pointer ends before the probe key (keys are presented in ascending order) */
+#define PTR_OK(l) (g_c.level_ptrs[l] <= g_n[l] && (g_c.level_ptrs[l] < 1 || g_luk[l][0] < g_bq) && (g_c.level_ptrs[l] < 2 || g_luk[l][1] < g_bq))
+#define PTRS_OK (PTR_OK(2) && PTR_OK(3) && PTR_OK(4) && PTR_OK(5) && PTR_OK(6))
+int c_is_base_level_for_key(ldb_compaction_t *c, const ldb_slice_t *user_key)
+__CPROVER_requires(c == &g_c && user_key == &g_bqs && g_c.input_version == &g_ver && g_c.level >= 0 && g_c.level <= LDB_NUM_LEVELS - 2)
+__CPROVER_requires(g_n[2] <= 2 && g_n[3] <= 2 && g_n[4] <= 2 && g_n[5] <= 2 && g_n[6] <= 2)
+__CPROVER_requires(DISJOINT_SORTED(2) && DISJOINT_SORTED(3) && DISJOINT_SORTED(4) && DISJOINT_SORTED(5) && DISJOINT_SORTED(6))
+__CPROVER_requires(PTRS_OK)
+__CPROVER_assigns(g_c.level_ptrs)
+/* 0 iff some file in a level >= level+2 contains the user key in its range */
+__CPROVER_ensures(__CPROVER_return_value == (HAS_KEY_BELOW ? 0 : 1))
+/* the pointers only move forward and keep their meaning for the next (larger) key */
+__CPROVER_ensures(PTRS_OK)
+__CPROVER_ensures(g_c.level_ptrs[0] == __CPROVER_old(g_c.level_ptrs[0]) && g_c.level_ptrs[1] == __CPROVER_old(g_c.level_ptrs[1]))
+__CPROVER_ensures(g_c.level_ptrs[2] >= __CPROVER_old(g_c.level_ptrs[2]) && g_c.level_ptrs[3] >= __CPROVER_old(g_c.level_ptrs[3]) &&
+                  g_c.level_ptrs[4] >= __CPROVER_old(g_c.level_ptrs[4]) && g_c.level_ptrs[5] >= __CPROVER_old(g_c.level_ptrs[5]) &&
+                  g_c.level_ptrs[6] >= __CPROVER_old(g_c.level_ptrs[6]))
+;
+void h_is_base_level(void) {
+  IN_INT(in_level); IN_SIZE(in_n2); IN_SIZE(in_n3); IN_SIZE(in_n4); IN_SIZE(in_n5); IN_SIZE(in_n6);
+  ASSUME(in_level >= 0 && in_level <= LDB_NUM_LEVELS - 2);
+  ASSUME(in_n2 <= 2 && in_n3 <= 2 && in_n4 <= 2 && in_n5 <= 2 && in_n6 <= 2);
+  mk_version(); mk_level(2, in_n2); mk_level(3, in_n3); mk_level(4, in_n4); mk_level(5, in_n5); mk_level(6, in_n6);
+  g_c.level = in_level; g_c.input_version = &g_ver;
+  g_c.level_ptrs[0] = nondet_size(); g_c.level_ptrs[1] = nondet_size(); g_c.level_ptrs[2] = nondet_size(); g_c.level_ptrs[3] = nondet_size();
+  g_c.level_ptrs[4] = nondet_size(); g_c.level_ptrs[5] = nondet_size(); g_c.level_ptrs[6] = nondet_size();
+  g_bq = nondet_u8(); g_bq_b[0] = g_bq; g_bqs.data = g_bq_b; g_bqs.size = 1; g_bqs.alloc = 0;
+  ldb_compaction_is_base_level_for_key(&g_c, &g_bqs);
+  CANARY();
+}
+
+/* ======================================================================
+ * ver.live - add_files puts the number of every file of every version (C13, C14)
+ * ====================================================================== */
+static rb_set64_t g_live; static uint64_t g_q; static int g_q_in; static size_t g_puts;
+int rb_set64_put(rb_tree_t *tree, uint64_t item) {
+  __CPROVER_assert(tree == &g_live, "add_files: numbers go into the caller's live set");
+  if (item == g_q) g_q_in = 1;
+  g_puts++;
+  return nondet_int() ? 1 : 0;
+}
+static ldb_version_t g_ver2;
+void c_versions_add_files(ldb_versions_t *vset, rb_set64_t *live)
+__CPROVER_requires(vset == &g_vset && live == &g_live && g_q_in == 0 && g_puts == 0)
+__CPROVER_assigns(g_q_in, g_puts)
+__CPROVER_ensures(g_q_in == 1)    /* g_q is the number of an arbitrary file of an arbitrary listed version */
+;
+void h_add_files(void) {
+  IN_SIZE(in_n0); IN_SIZE(in_n1); IN_SIZE(in_n2); IN_SIZE(in_n3); IN_INT(in_versions); IN_INT(in_pick_v); IN_INT(in_pick_l); IN_SIZE(in_pick_i);
+  int l; size_t n;
+  ASSUME(in_n0 <= 2 && in_n1 <= 2 && in_n2 <= 2 && in_n3 <= 2 && in_versions >= 1 && in_versions <= 2);
+  mk_version(); mk_level(0, in_n0); mk_level(1, in_n1); mk_level(2, in_n2); mk_level(3, in_n3);
+  /* version 1 = g_ver with model levels 0, 5; version 2 holds model levels 2, 3 as its levels 0, 6 */
+  g_ver.files[5] = g_ver.files[1]; g_ver.files[1].length = 0;
+  g_ver2 = g_ver; g_ver2.files[0] = g_ver.files[2]; g_ver2.files[6] = g_ver.files[3]; g_ver2.files[5].length = 0;
+  g_ver.files[2].length = 0; g_ver.files[3].length = 0;
+  g_vset.dummy_versions.next = &g_ver; g_ver.prev = &g_vset.dummy_versions;
+  if (in_versions == 2) { g_ver.next = &g_ver2; g_ver2.prev = &g_ver; g_ver2.next = &g_vset.dummy_versions; g_vset.dummy_versions.prev = &g_ver2; }
+  else { g_ver.next = &g_vset.dummy_versions; g_vset.dummy_versions.prev = &g_ver; }
+  g_vset.current = g_vset.dummy_versions.prev;
+  /* pick an arbitrary file of an arbitrary listed version */
+  ASSUME(in_pick_v >= 1 && in_pick_v <= in_versions && (in_pick_l == 0 || in_pick_l == 1));
+  l = in_pick_v == 1 ? (in_pick_l == 0 ? 0 : 1) : (in_pick_l == 0 ? 2 : 3);
+  n = l == 0 ? in_n0 : l == 1 ? in_n1 : l == 2 ? in_n2 : in_n3;
+  ASSUME(in_pick_i < n);
+  g_q = g_num[l][in_pick_i]; g_q_in = 0; g_puts = 0;
+  ldb_versions_add_files(&g_vset, &g_live);
   CANARY();
 }
